@@ -543,7 +543,7 @@ class FnEval:
         a0 = operand_local(args[0]) if args else None
         if last in ("into_iter", "rev", "skip", "take", "by_ref", "fuse", "peekable") and a0 is not None:
             return self.iter_struct(a0, depth + 1)
-        if last in ("chunks_exact", "chunks_exact_mut") and len(args) == 2:
+        if last in ("chunks_exact", "chunks_exact_mut", "windows") and len(args) == 2:
             n = self.op_ival(args[1])
             if n is not None and n[0] == n[1] and n[0] >= 1:
                 return ("chunk", int(n[0]))
@@ -714,9 +714,28 @@ class FnEval:
             return self.ref_len(local, at, depth)
         return None
 
+    def _vec_param(self, l):
+        """a by-value `Vec<T>` parameter that the function never re-assigns or borrows mutably: its length is a
+        fact of the call, like that of a slice parameter"""
+        if not (0 < l <= self.fn["argc"]):
+            return False
+        if not self.ty(l).get("s", "").startswith(("alloc::vec::Vec<", "std::vec::Vec<")):
+            return False
+        if self.b.defs().get(l):
+            return False
+        for bi in self.b.reach:
+            for st in self.b.blocks[bi]["s"]:
+                if st[0] == "A" and st[2][0] in ("ref", "rawptr") and st[2][1] and st[2][2][0] == l:
+                    return False      # &mut v: push / truncate may follow
+                if st[0] == "A" and st[2][0] == "use" and st[2][1][0] == "mv" and st[2][1][1] == [l]:
+                    return False      # moved away
+        return True
+
     def place_len(self, pl, at, depth):
         """Length of the slice/array denoted by place `pl` (the referent, not a reference)."""
         local = pl[0]
+        if len(pl) == 1 and self._vec_param(local):
+            return self.guard_len(local, at)
         # type-based
         tid = self.b.local_ty(local)
         td = self.f.ty(tid)
@@ -1523,6 +1542,8 @@ class FnEval:
                 return self.ref_root(["cp", [rv[2][0]]], depth + 1)      # &**x
             if rv[0] == "ref" and len(rv[2]) == 1 and self.ty(rv[2][0]).get("k") in ("ref", "ptr"):
                 return self.ref_root(["cp", [rv[2][0]]], depth + 1)      # &x with x itself a reference (auto-deref at the use)
+            if rv[0] == "ref" and len(rv[2]) == 1 and self._vec_param(rv[2][0]):
+                return rv[2][0]                                          # &v of a by-value Vec parameter
             if rv[0] in ("use", "cast"):
                 return self.ref_root(rv[1] if rv[0] == "use" else rv[2], depth + 1)
         elif d[2] == "call":
@@ -1537,6 +1558,20 @@ class FnEval:
             return self._guards
         out = []
         b = self.b
+        # an index that passed its bounds check tells the length: after `v[k]`, len(v) >= k + 1 on the continuing edge
+        for bi in b.reach:
+            t = b.blocks[bi]["t"]
+            if t[0] == "assert" and t[3] == "bounds" and len(t[4]) == 2 and t[5] is not None:
+                root = self.len_root(t[4][0])
+                if root is not None:
+                    save = self.at
+                    self.at = bi
+                    try:
+                        iv = self.op_ival(t[4][1], bi)
+                    finally:
+                        self.at = save
+                    if iv is not None and iv[0] >= 0 and iv[0] < (1 << 40):
+                        out.append((root, int(iv[0]) + 1, INF, bi, t[5]))
         for bi in b.reach:
             t = b.blocks[bi]["t"]
             if t[0] != "switch":
